@@ -209,10 +209,12 @@ def r_edit(prog, tier):
             if op and cmpf:
                 c = cmpf[-1]
                 rel = None
-                if c[2] == '==':
-                    rel = '=='
+                if c[2] in ('==', '!='):
+                    rel = c[2]
                 elif c[2] == '<':
                     rel = '<' if c[1] == L else '>'
+                elif c[2] == '<=':
+                    rel = '<=' if c[1] == L else '>='
                 seen[op[0]] = rel
     ok = True if seen == want else (False if set(seen) == set(want) and None not in seen.values() else None)
     obs.append(Ob('R-EDIT/FILTER', f.fq, 'lt / gt / eq drop exactly the trees shorter / longer / as long as the value', ok,
@@ -633,8 +635,22 @@ def r_edge(prog, tier):
         rel_r = [fa for fa in facts if fa[0] == 'cmp' and set((fa[1], fa[3])) == set((tmax, tr))]
         if (rel_l and not lo) or (rel_r and not hi):
             ok = False
+    const_note = None
+    if ok is None and terms_ok:
+        # positive evidence: a neighbour is compared with an integer constant where the first / last token number belongs
+        for (v_, bound_, which) in ((tl, tmin, 'first'), (tr, tmax, 'last')):
+            rel = [fa for fa in facts if fa[0] == 'cmp' and v_ in (fa[1], fa[3])]
+            withc = [fa for fa in rel if (fa[1] if fa[3] == v_ else fa[3]).lstrip('-').isdigit()]
+            withb = [fa for fa in rel if bound_ is not None and bound_ in (fa[1], fa[3])]
+            if withc and not withb:
+                ok = False
+                const_note = 'the %s neighbour `%s` is compared with the constant %s, not with the number of the %s token of ' \
+                             'the sentence' % ('left' if which == 'first' else 'right', v_,
+                                               withc[0][1] if withc[0][3] == v_ else withc[0][3], which)
     if bad_neighbour:
         ok = False
+    if const_note and not bad_neighbour:
+        bad_neighbour = const_note
     obs.append(Ob('R-EDGE', f.fq, 'a root child is re-attached exactly when both its left and right neighbour tokens exist',
                   ok, bad_neighbour if bad_neighbour else 'the move is dominated by `%s <= %s` and `%s <= %s` (left neighbour = min - 1, right = max + 1)'
                   % (tmin, tl, tr, tmax) if ok else
@@ -706,4 +722,83 @@ def r_edge(prog, tier):
             okl = False
     obs.append(Ob('R-EDGE', f.fq, 'skipping over adjacent unattached siblings compares the current focus with the current '
                   'sibling', okl, why, construct='edge-skip', line=f.node.lineno))
+    # the two tests of the skipping loop, as integer-linear normal forms over min/max of the two spans
+    from ..linear import norm_compare, difference_bound
+    for w in wl:
+        tn = norm_test(w.ast, True)
+        if tn[0] != 'none' or tn[2] is not False:
+            continue
+        sib = tn[1]
+        inside = [x for x in cfg.eval_nodes() if w.id in x.loops and x.kind == 'stmt' and isinstance(x.ast, ast.Assign)]
+        upd = [x for x in inside if isinstance(x.ast.targets[0], ast.Name) and unparse(x.ast.value) == sib]
+        if not upd:
+            continue
+        foc = unparse(upd[0].ast.targets[0])
+
+        def spans_of(who):
+            out = set()
+            origins = set([who]) | set(x.ast.value.id for x in cfg.eval_nodes() if x.kind == 'stmt' and isinstance(x.ast, ast.Assign)
+                                       and unparse(x.ast.targets[0]) == who and isinstance(x.ast.value, ast.Name))
+            for x in cfg.eval_nodes():
+                if x.kind == 'stmt' and isinstance(x.ast, ast.Assign) and isinstance(x.ast.targets[0], ast.Name) \
+                        and any('trees.terminals(%s)' % o in unparse(x.ast.value) for o in origins):
+                    out.add(x.ast.targets[0].id)
+            return out
+        ss = spans_of(sib)
+        fs = spans_of(foc) - ss
+        for n_ in cfg.nodes:
+            if n_.kind != 'test' or w.id not in n_.loops or not isinstance(n_.ast, ast.Compare):
+                continue
+            db = difference_bound(norm_compare(f, n_.ast))
+            if db is None:
+                continue
+            x_, y_, c_ = db
+            def kind(a):
+                for (fn, lst, tag) in (('min', ss, 'smin'), ('max', ss, 'smax'), ('min', fs, 'fmin'), ('max', fs, 'fmax')):
+                    if any(a == '%s(%s)' % (fn, sp) for sp in lst):
+                        return tag
+                return None
+            kx, ky = kind(x_), kind(y_)
+            if kx is None or ky is None:
+                continue
+            okt = None
+            whyt = 'test between %s and %s not one this rule knows' % (x_, y_)
+            # role of the test: does its true branch end the scan (break) or move on to the next sibling?
+            owner = n_.owner
+            role = None
+            if isinstance(owner, ast.If):
+                if any(isinstance(b_, ast.Break) for b_ in owner.body):
+                    role = 'gap'
+                elif any(isinstance(b_, ast.Break) for b_ in owner.orelse):
+                    role = 'nogap'
+                elif any(isinstance(b_, ast.Continue) for b_ in owner.body):
+                    role = 'skip'
+            # bring to the form  smin - fmax <= c   (tokens of different nodes are never equal: <= -1 and <= 0 coincide)
+            d = None
+            if (kx, ky) == ('smin', 'fmax'):
+                d = ('le', c_)               # smin - fmax <= c
+            elif (kx, ky) == ('fmax', 'smin'):
+                d = ('ge', -c_)              # smin - fmax >= -c
+            if d is not None and role == 'skip':
+                if d in (('le', -1), ('le', 0)):
+                    okt, whyt = True, 'skip when the sibling starts before the end of the focus'
+                elif d[0] == 'le':
+                    okt, whyt = False, 'the sibling is skipped when  start(sibling) - end(focus) <= %d ; documented: when it ' \
+                                       'starts before the end of the focus (<= -1)' % d[1]
+            elif d is not None and role == 'gap':
+                if d == ('ge', 2):
+                    okt, whyt = True, 'the scan ends when the sibling starts at least two positions after the end of the focus'
+                elif d[0] == 'ge':
+                    okt, whyt = False, 'the scan ends when  start(sibling) - end(focus) >= %d ; documented: >= 2 (a directly ' \
+                                       'adjacent sibling is not a gap)' % d[1]
+            elif d is not None and role == 'nogap':
+                if d == ('le', 1):
+                    okt, whyt = True, 'the scan goes on while the sibling is adjacent'
+                elif d[0] == 'le':
+                    okt, whyt = False, 'the scan goes on while  start(sibling) - end(focus) <= %d ; documented: <= 1' % d[1]
+            elif 'smax' in (kx, ky) and ('fmax' in (kx, ky) or 'fmin' in (kx, ky)) and role in ('skip', 'gap', 'nogap'):
+                okt, whyt = False, 'the test looks at the END of the sibling (`%s`): whether it is skipped or ends the scan ' \
+                                   'depends on where it STARTS' % (x_ if kx == 'smax' else y_)
+            obs.append(Ob('R-EDGE', f.fq, 'skipping-loop test `%s` is one of the two documented comparisons' % unparse(n_.ast),
+                          okt, whyt, construct='edge-test:' + unparse(n_.ast), line=n_.lineno))
     return obs, {}
